@@ -401,70 +401,7 @@ func checkC18(c *Ctx) {
 	c.Check(len(badGroup) == 0, "R18.3", name, "group-contract", conv.Pos(), "slog.Handler: \"If a group has no Attrs (even if it has a non-empty key), ignore it\" and a group with an empty key is inlined: on every path of kind Group, Skip is returned once the group is known to be empty, and Inline(group) / Object(key, group) are returned only after it was established non-empty and its key tested: %v", lim(badGroup))
 
 	// ---------------- R18.2 ----------------
-	lvf := c.Func(SlogPath, "convertSlogLevel")
-	if c.Anchor("R18.2", "zapslog.convertSlogLevel", lvf != nil) {
-		// evaluated: the map is applied to every slog level in [-2048, 2048] and to the extremes
-		it := NewInterp(c)
-		var pts []int64
-		for l := int64(-2048); l <= 2048; l++ {
-			pts = append(pts, l)
-		}
-		pts = append([]int64{math.MinInt64, math.MinInt32}, pts...)
-		pts = append(pts, math.MaxInt32, math.MaxInt64)
-		var zs []int64
-		evalErr := ""
-		for _, l := range pts {
-			r, err := it.Run(lvf, []IVal{IInt(l)})
-			if err != nil || len(r) != 1 || r[0].K != ivInt {
-				evalErr = fmt.Sprintf("convertSlogLevel(%d): %v %v", l, r, err)
-				break
-			}
-			zs = append(zs, r[0].I)
-		}
-		if evalErr != "" {
-			c.Und("R18.2", FStr(lvf), "monotone", lvf.Pos(), "cannot evaluate the level map: %s", evalErr)
-		} else {
-			mono := ""
-			for i := 1; i < len(zs); i++ {
-				if zs[i] < zs[i-1] {
-					mono = fmt.Sprintf("slog level %d maps to %d but %d maps to %d", pts[i-1], zs[i-1], pts[i], zs[i])
-				}
-			}
-			anch := ""
-			for _, n := range []string{"Debug", "Info", "Warn", "Error"} {
-				sl, ok1 := c.ConstVal("log/slog", "Level"+n)
-				zl, ok2 := c.ConstVal(CorePath, n+"Level")
-				if !ok1 || !ok2 {
-					anch += "missing constant " + n + "; "
-					continue
-				}
-				r, err := it.Run(lvf, []IVal{IInt(sl)})
-				if err != nil || len(r) != 1 || r[0].I != zl {
-					anch += fmt.Sprintf("slog.Level%s(%d) maps to %v, want %d; ", n, sl, r, zl)
-				}
-			}
-			dz, _ := c.ConstVal(CorePath, "DebugLevel")
-			ez, _ := c.ConstVal(CorePath, "ErrorLevel")
-			rng := ""
-			for i, z := range zs {
-				if z < dz || z > ez {
-					rng = fmt.Sprintf("slog level %d maps to %d, outside [Debug, Error] (slog has no level that may panic or exit)", pts[i], z)
-				}
-			}
-			c.Check(mono == "" && anch == "" && rng == "", "R18.2", FStr(lvf), "monotone", lvf.Pos(), "evaluated on %d slog levels: the map is non-decreasing, sends slog's four named levels to zap's, and stays within [Debug, Error] %s %s %s", len(pts), mono, anch, rng)
-		}
-		// shared
-		en := c.Method(SlogPath, "Handler", "Enabled")
-		hd := c.Method(SlogPath, "Handler", "Handle")
-		if c.Anchor("R18.2", "zapslog.Handler.Enabled/Handle", en != nil && hd != nil) {
-			for _, r := range Returns(en) {
-				d := Desc(RetVals(r)[0])
-				c.Check(d == "Enabled(h.core, convertSlogLevel(level))", "R18.2", FStr(en), "enabled-uses-map", r.Pos(), "Enabled asks the core about the mapped level (%s)", d)
-			}
-			okL := c18HandleChecksMapped(hd)
-			c.Check(okL, "R18.2", FStr(hd), "handle-uses-map", hd.Pos(), "Handle stamps the entry with convertSlogLevel(record.Level)")
-		}
-	}
+	c18LevelMap(c)
 
 	// ---------------- R18.3 ----------------
 	wg := c.Method(SlogPath, "Handler", "WithGroup")
@@ -1713,4 +1650,101 @@ func c18GroupsOrNilSeen(v ssa.Value, seen map[*ssa.Phi]bool) bool {
 		return len(x.Edges) > 0
 	}
 	return strings.HasSuffix(Desc(v), "."+slogGroups)
+}
+
+// c18LevelMap: R18.2 (also run for C05 as R5.17: the level a record is filtered and reported at).
+func c18LevelMap(c *Ctx) {
+	lvf := c.Func(SlogPath, "convertSlogLevel")
+	if c.Anchor("R18.2", "zapslog.convertSlogLevel", lvf != nil) {
+		// evaluated: the map is applied to every slog level in [-2048, 2048] and to the extremes
+		it := NewInterp(c)
+		var pts []int64
+		for l := int64(-2048); l <= 2048; l++ {
+			pts = append(pts, l)
+		}
+		pts = append([]int64{math.MinInt64, math.MinInt32}, pts...)
+		pts = append(pts, math.MaxInt32, math.MaxInt64)
+		var zs []int64
+		evalErr := ""
+		for _, l := range pts {
+			r, err := it.Run(lvf, []IVal{IInt(l)})
+			if err != nil || len(r) != 1 || r[0].K != ivInt {
+				evalErr = fmt.Sprintf("convertSlogLevel(%d): %v %v", l, r, err)
+				break
+			}
+			zs = append(zs, r[0].I)
+		}
+		if evalErr != "" {
+			c.Und("R18.2", FStr(lvf), "monotone", lvf.Pos(), "cannot evaluate the level map: %s", evalErr)
+		} else {
+			mono := ""
+			for i := 1; i < len(zs); i++ {
+				if zs[i] < zs[i-1] {
+					mono = fmt.Sprintf("slog level %d maps to %d but %d maps to %d", pts[i-1], zs[i-1], pts[i], zs[i])
+				}
+			}
+			anch := ""
+			for _, n := range []string{"Debug", "Info", "Warn", "Error"} {
+				sl, ok1 := c.ConstVal("log/slog", "Level"+n)
+				zl, ok2 := c.ConstVal(CorePath, n+"Level")
+				if !ok1 || !ok2 {
+					anch += "missing constant " + n + "; "
+					continue
+				}
+				r, err := it.Run(lvf, []IVal{IInt(sl)})
+				if err != nil || len(r) != 1 || r[0].I != zl {
+					anch += fmt.Sprintf("slog.Level%s(%d) maps to %v, want %d; ", n, sl, r, zl)
+				}
+			}
+			dz, _ := c.ConstVal(CorePath, "DebugLevel")
+			ez, _ := c.ConstVal(CorePath, "ErrorLevel")
+			rng := ""
+			for i, z := range zs {
+				if z < dz || z > ez {
+					rng = fmt.Sprintf("slog level %d maps to %d, outside [Debug, Error] (slog has no level that may panic or exit)", pts[i], z)
+				}
+			}
+			// ... and a level between two named ones belongs to the named level below it (slog: "a level is enabled if it
+			// is at least the handler's minimum" - Debug+2 is a debug message, not an Info one)
+			steps := ""
+			{
+				names := []string{"Debug", "Info", "Warn", "Error"}
+				var sls, zls []int64
+				okC := true
+				for _, n := range names {
+					sl, ok1 := c.ConstVal("log/slog", "Level"+n)
+					zl, ok2 := c.ConstVal(CorePath, n+"Level")
+					okC = okC && ok1 && ok2
+					sls, zls = append(sls, sl), append(zls, zl)
+				}
+				if okC {
+					for i, l := range pts {
+						want := zls[0]
+						for k := range sls {
+							if l >= sls[k] {
+								want = zls[k]
+							}
+						}
+						if zs[i] != want && steps == "" {
+							steps = fmt.Sprintf("slog level %d maps to %d, want %d (the named level at or below it); ", l, zs[i], want)
+						}
+					}
+				}
+			}
+			c.Check(steps == "", "R18.2", FStr(lvf), "steps-at-named-levels", lvf.Pos(), "evaluated on %d slog levels: every level maps to the zap level of the greatest named slog level not above it (Debug for everything below Info) %s", len(pts), steps)
+			c.Check(mono == "" && anch == "" && rng == "", "R18.2", FStr(lvf), "monotone", lvf.Pos(), "evaluated on %d slog levels: the map is non-decreasing, sends slog's four named levels to zap's, and stays within [Debug, Error] %s %s %s", len(pts), mono, anch, rng)
+		}
+		// shared
+		en := c.Method(SlogPath, "Handler", "Enabled")
+		hd := c.Method(SlogPath, "Handler", "Handle")
+		if c.Anchor("R18.2", "zapslog.Handler.Enabled/Handle", en != nil && hd != nil) {
+			for _, r := range Returns(en) {
+				d := Desc(RetVals(r)[0])
+				c.Check(d == "Enabled(h.core, convertSlogLevel(level))", "R18.2", FStr(en), "enabled-uses-map", r.Pos(), "Enabled asks the core about the mapped level (%s)", d)
+			}
+			okL := c18HandleChecksMapped(hd)
+			c.Check(okL, "R18.2", FStr(hd), "handle-uses-map", hd.Pos(), "Handle stamps the entry with convertSlogLevel(record.Level)")
+		}
+	}
+
 }
